@@ -228,14 +228,42 @@ pub async fn run(a: &Args) -> Report {
         let sem = sem.clone();
         hs.push(tokio::spawn(async move {
             let g = sem.acquire_owned().await.unwrap();
-            one_config(a, idx, p, t, g).await
+            (idx, p, t, one_config(a, idx, p, t, g).await)
         }));
     }
     let mut rep = Report::new();
+    let mut suspects: Vec<(usize, Proto, Transport, Report)> = Vec::new();
     for h in hs {
-        if let Ok(r) = h.await {
-            rep.merge(r);
+        if let Ok((idx, p, t, r)) = h.await {
+            if r.violations.is_empty() {
+                rep.merge(r);
+            } else {
+                suspects.push((idx, p, t, r));
+            }
         }
+    }
+    // DESIGN section 5: a witness against running nodes is executed once more, in isolation (a fresh pair, nothing else
+    // running), before it is believed. A symptom is kept when the same configuration shows the same symptom again
+    // (whatever the local handshake kind of the flow); one that does not come back is inconclusive, not a violation.
+    let symptom = |sig: &str| -> String {
+        let parts: Vec<&str> = sig.split('|').collect();
+        if parts.len() >= 5 { format!("{}|{}|{}", parts[1], parts[2], parts[4..].join("|")) } else { sig.to_string() }
+    };
+    for (idx, p, t, mut r) in suspects {
+        let sem1 = Arc::new(tokio::sync::Semaphore::new(1));
+        let again = one_config(a.clone(), idx, p, t, sem1.acquire_owned().await.unwrap()).await;
+        let confirmed: std::collections::HashSet<String> = again.violations.keys().map(|k| symptom(k)).collect();
+        rep.mon("configurations_re_run_in_isolation", 1);
+        let sigs: Vec<String> = r.violations.keys().cloned().collect();
+        for sig in sigs {
+            if !confirmed.contains(&symptom(&sig)) {
+                let v = r.violations.remove(&sig).unwrap();
+                rep.mon("symptoms_not_reproduced_in_isolation", v.count as u64);
+                rep.inconclusive(format!("seen once, not reproduced when the configuration was run again in isolation: {sig}"));
+                rep.note(format!("not reproduced in isolation: {} ({})", sig, v.what));
+            }
+        }
+        rep.merge(r);
     }
     rep
 }
